@@ -1,6 +1,7 @@
-(* C06 dispatch: [dfaA, dfaB] -> the ten comparison answers; [dfa] -> isempty, isfinite *)
+(* C06 dispatch: [dfaA, dfaB] -> the ten comparison answers; [dfa] -> isempty, isfinite;
+   op 3: [dfaA, dfaB] -> == by the Hopcroft-Karp mirror model (Model/HK.v) under two schedules *)
 From Coq Require Import List Arith NArith Bool.
-From AV Require Import Base.Util Base.ITree Spec.Lang Spec.FA Model.Codec Model.Decide Model.Product.
+From AV Require Import Base.Util Base.ITree Spec.Lang Spec.FA Model.Codec Model.Decide Model.Product Model.HK.
 Import ListNotations.
 
 Definition d06 (op : nat) (t : itree) : itree :=
@@ -17,6 +18,12 @@ Definition d06 (op : nat) (t : itree) : itree :=
     match dec_dfa ta with
     | Some a => L [enc_res Ib (isempty_m a); enc_res Ib (isfinite_m a)]
     | None => bad_input
+    end
+  | 3, L [ta; tb] =>   (* DFA.__eq__ as coded: record symbol order / first root wins ties; reversed order / second wins *)
+    match dec_dfa ta, dec_dfa tb with
+    | Some a, Some b =>
+      L [enc_res Ib (hk_eq a b); enc_res Ib (hk_eq_gen (fun _ _ => false) (rev (d_syms a)) a b)]
+    | _, _ => bad_input
     end
   | _, _ => bad_input
   end.
